@@ -90,6 +90,7 @@ def case_strategy(draw: Any, runners: List[str]) -> Dict[str, Any]:
         "chunks": chunks,
         "raise_at": draw(st.integers(0, 3)),
         "has_client": draw(st.booleans()),
+        "slow_start": draw(st.sampled_from([False, False, True])),
     }
 
 
@@ -341,8 +342,19 @@ def drive(case: Dict[str, Any], probe: Probe, sent: List[dict]) -> Optional[Base
         async def app_send(m: Optional[dict]) -> None:
             if m is None:
                 done.append(True)
-            else:
-                sent.append(m)
+                return
+            if case.get("slow_start") and m.get("type") == "http.response.start":
+                # a client that is slow to take the response head: the WSGI thread is paced by
+                # each send, so nothing may overtake it
+                if runner == "asyncio_taskgroup":
+                    import asyncio as _a
+
+                    await _a.sleep(0.02)
+                else:
+                    import trio as _t
+
+                    await _t.sleep(0.02)
+            sent.append(m)
 
         if runner == "asyncio_taskgroup":
             import asyncio
